@@ -65,6 +65,7 @@ def build_packages(pkgs, dest):
     """pkgs: {name: {filename: text}} generated under gen/<name>.  Builds all test binaries with one `go test -c`
     (go builds the packages in parallel) and copies them to dest.  Returns {name: binary path}."""
     with common.build_lock():
+        common.prune_gocache()
         w = common.prepare_harness()
         for name, files in pkgs.items():
             d = common.gen_dir(name)
